@@ -52,6 +52,9 @@ pub mod ffi {
         let idx = idx.try_into().ok();
         match idx.and_then(|idx| this.get(idx)) {
             Some(src) => {
+                #[cfg(roto_verif)]
+                crate::verif::sched::point("escape", this.vid(), src.as_ptr() as usize);
+
                 // We got a pointer into the list, clone it into out at the correct alignment
 
                 // To leave this value in a valid state even if a panic happens
@@ -63,7 +66,11 @@ pub mod ffi {
                 // `out` must be a valid RotoOption<T>.
                 unsafe { out.cast::<u8>().write(1) };
 
+                #[cfg(roto_verif)]
+                crate::verif::sched::point("acquire", this.vid(), 0);
                 let raw = this.0.lock().unwrap();
+                #[cfg(roto_verif)]
+                crate::verif::sched::point("use", this.vid(), src.as_ptr() as usize);
                 let size = raw.vtable.size();
                 let alignment = raw.vtable.align();
                 let offset = 1usize.next_multiple_of(alignment);
@@ -169,6 +176,8 @@ pub mod boundary {
                 return true;
             }
 
+            #[cfg(roto_verif)]
+            crate::verif::sched::point("acquire", self.inner.vid(), 0);
             let this = self.inner.0.lock().unwrap();
 
             // SAFETY: The rawlist represents a slice of T::Transformed so
@@ -181,6 +190,8 @@ pub mod boundary {
                 )
             };
 
+            #[cfg(roto_verif)]
+            crate::verif::sched::point("acquire", other.inner.vid(), 0);
             let other = other.inner.0.lock().unwrap();
 
             // SAFETY: The rawlist represents a slice of T::Transformed so
@@ -242,6 +253,11 @@ pub mod boundary {
         /// Get the element at index `idx`
         pub fn get(&self, idx: usize) -> Option<T> {
             let ptr = self.inner.get(idx)?;
+
+            #[cfg(roto_verif)]
+            crate::verif::sched::point("escape", self.inner.vid(), ptr.as_ptr() as usize);
+            #[cfg(roto_verif)]
+            crate::verif::sched::point("use", self.inner.vid(), ptr.as_ptr() as usize);
 
             // SAFETY: The list has values of T::Transformed, which means that
             // this cast is valid.
@@ -315,6 +331,8 @@ pub mod boundary {
     impl<T: Clone + Value> List<T> {
         /// Convert this [`List`] into a regular [`Vec`].
         pub fn to_vec(&self) -> Vec<T> {
+            #[cfg(roto_verif)]
+            crate::verif::sched::point("acquire", self.inner.vid(), 0);
             let guard = self.inner.0.lock().unwrap();
 
             // SAFETY: The RawList always contains a valid slice. Even if the
@@ -453,7 +471,11 @@ impl PartialEq for ErasedList {
             return true;
         }
 
+        #[cfg(roto_verif)]
+        crate::verif::sched::point("acquire", self.vid(), 0);
         let this = self.0.lock().unwrap();
+        #[cfg(roto_verif)]
+        crate::verif::sched::point("acquire", other.vid(), 0);
         let other = other.0.lock().unwrap();
 
         if this.len != other.len {
@@ -480,6 +502,14 @@ impl PartialEq for ErasedList {
     }
 }
 
+#[cfg(roto_verif)]
+impl ErasedList {
+    /// Identity of the shared list (address of the shared allocation)
+    pub(crate) fn vid(&self) -> usize {
+        Arc::as_ptr(&self.0) as usize
+    }
+}
+
 impl ErasedList {
     pub fn new(vtable: VTable) -> Self {
         Self(Arc::new(Mutex::new(RawList::new(vtable))))
@@ -495,6 +525,8 @@ impl ErasedList {
     pub unsafe fn push(&self, elem_ptr: NonNull<T>) {
         // SAFETY: We require that `elem_ptr` must be a pointer to the element
         // type `T` that the list contains.
+        #[cfg(roto_verif)]
+        crate::verif::sched::point("acquire", self.vid(), 0);
         unsafe { self.0.lock().unwrap().push(elem_ptr) };
     }
 
@@ -505,6 +537,8 @@ impl ErasedList {
     /// Both `self` and `other` must have the same element type.
     ///
     pub unsafe fn concat(&self, other: &Self) -> Self {
+        #[cfg(roto_verif)]
+        crate::verif::sched::point("acquire", self.vid(), 0);
         let a = self.0.lock().unwrap();
 
         let new = Self::new(a.vtable.clone());
@@ -517,6 +551,8 @@ impl ErasedList {
         // We need to ensure we don't lock the mutex twice
         drop(a);
 
+        #[cfg(roto_verif)]
+        crate::verif::sched::point("acquire", other.vid(), 0);
         let b = other.0.lock().unwrap();
 
         // SAFETY: raw and b have the same element type
@@ -530,6 +566,8 @@ impl ErasedList {
     }
 
     pub fn get(&self, idx: usize) -> Option<NonNull<T>> {
+        #[cfg(roto_verif)]
+        crate::verif::sched::point("acquire", self.vid(), 0);
         self.0.lock().unwrap().get(idx)
     }
 
@@ -543,6 +581,8 @@ impl ErasedList {
     pub unsafe fn contains(&self, item_ptr: NonNull<T>) -> bool {
         // SAFETY: We require that the item_ptr points to the same type as in
         // the list.
+        #[cfg(roto_verif)]
+        crate::verif::sched::point("acquire", self.vid(), 0);
         unsafe { self.0.lock().unwrap().contains(item_ptr) }
     }
 
@@ -554,6 +594,8 @@ impl ErasedList {
     ///  - There must be no references to that value.
     ///  - The value cannot be used after this function.
     pub unsafe fn contains_owned(&self, item_ptr: NonNull<T>) -> bool {
+        #[cfg(roto_verif)]
+        crate::verif::sched::point("acquire", self.vid(), 0);
         let raw = self.0.lock().unwrap();
 
         // SAFETY: We require that the item_ptr points to the same type as in
@@ -580,6 +622,8 @@ impl ErasedList {
     pub unsafe fn index(&self, item_ptr: NonNull<T>) -> Option<usize> {
         // SAFETY: We require that the item_ptr points to the same type as in
         // the list.
+        #[cfg(roto_verif)]
+        crate::verif::sched::point("acquire", self.vid(), 0);
         unsafe { self.0.lock().unwrap().index(item_ptr) }
     }
 
@@ -591,6 +635,8 @@ impl ErasedList {
     ///  - There must be no references to that value.
     ///  - The value cannot be used after this function.
     pub unsafe fn index_owned(&self, item_ptr: NonNull<T>) -> Option<usize> {
+        #[cfg(roto_verif)]
+        crate::verif::sched::point("acquire", self.vid(), 0);
         let raw = self.0.lock().unwrap();
 
         // SAFETY: We require that the item_ptr points to the same type as in
@@ -608,18 +654,26 @@ impl ErasedList {
     }
 
     pub fn swap(&self, i: usize, j: usize) {
+        #[cfg(roto_verif)]
+        crate::verif::sched::point("acquire", self.vid(), 0);
         self.0.lock().unwrap().swap(i, j)
     }
 
     pub fn len(&self) -> usize {
+        #[cfg(roto_verif)]
+        crate::verif::sched::point("acquire", self.vid(), 0);
         self.0.lock().unwrap().len()
     }
 
     pub fn capacity(&self) -> usize {
+        #[cfg(roto_verif)]
+        crate::verif::sched::point("acquire", self.vid(), 0);
         self.0.lock().unwrap().capacity()
     }
 
     pub fn is_empty(&self) -> bool {
+        #[cfg(roto_verif)]
+        crate::verif::sched::point("acquire", self.vid(), 0);
         self.0.lock().unwrap().is_empty()
     }
 }
@@ -935,6 +989,8 @@ impl RawList {
                         new_capacity,
                     )
                 };
+                #[cfg(roto_verif)]
+                crate::verif::sched::point("realloc", ptr.as_ptr() as usize, new_ptr.as_ptr() as usize);
                 self.ptr = new_ptr;
             } else {
                 // SAFETY: At this point, we know that the size of the layout
@@ -1058,6 +1114,8 @@ impl RawList {
         }
 
         if let Some(ptr) = self.current_memory() {
+            #[cfg(roto_verif)]
+            crate::verif::sched::point("dealloc", ptr.as_ptr() as usize, 0);
             // SAFETY: We allocated the ptr with alloc_array or realloc_array.
             unsafe {
                 dealloc_array(ptr, self.vtable.layout(), self.capacity)
